@@ -19,7 +19,7 @@ SCEN = ("Leader-side and RawNode harnesses are concrete-index scenarios (log sha
 CLAIMS = {
  "C01": dict(text="Bounded model checking of single real steps (Raft::step for (pre)votes, appends, heartbeats, snapshots, read-index responses; RawNode ready/advance cycles): commit and applied never decrease, no entry at or below the commit index changes, commit moves only by the follower / vote / read-response rules, committed entries are handed to the application exactly once in order. " + DEC,
             ref="3/C01", note=SCEN + TRUST),
- "C02": dict(text="One real step per harness: a cast vote never changes within a term (all roles, symbolic requests); leadership is reached only from Candidate, at the same term, on a real-vote grant that makes the recorded votes a joint majority (3-, 5-voter and joint configurations, duplicate / stray / stale / non-voter / wrong-kind responses); a new leader starts without stale acknowledgements; RawNode releases a grant only with the hard state that records it. " + DEC,
+ "C02": dict(text="One real step per harness: a cast vote never changes within a term (all roles, symbolic requests); leadership is reached only from Candidate, at the same term, on a real-vote grant that makes the recorded votes a joint majority (3-, 5-voter and joint configurations, duplicate / stray / stale / non-voter / wrong-kind responses); a new leader starts without stale acknowledgements and with a fresh uncommitted-size budget; RawNode releases a grant only with the hard state that records it. " + DEC,
             ref="3/C02", note=SCEN + TRUST),
  "C03": dict(text="Every (pre-)vote grant emitted by one real Raft::step from a symbolic state implies the candidate's (last term, last index) >= the voter's; grants carry the request's term and go to the requester; campaign requests carry the node's true last index/term/commit; commit-by-vote moves only to a locally matching (index, term). " + DEC,
             ref="3/C03", note=SCEN + TRUST),
@@ -29,16 +29,16 @@ CLAIMS = {
             ref="3/C05", note=SCEN + TRUST),
  "C06": dict(text="RawNode ready/persist/advance cycles: term never decreases; a non-leader releases messages only as persisted_messages; a granted vote is recorded in the hard state of the same Ready and that Ready is must_sync even when only the vote changed; what a leader sends immediately carries an already durable term; stale persistence notices never move persisted onto unwritten entries. Restart: RawNode::new on a durable image reproduces exactly the durable term / vote / commit, leaves the log untouched and resumes apply after the applied index. Found and fixed a genuine defect (single-voter leader with learners).",
             ref="3/C06", note="Crash points are not enumerated as such: 'never behind anything it told another node' follows from (per Ready) promises are released only with / after the hard state and entries that cover them + (restart) the restarted node equals its durable image. " + SCEN + TRUST),
- "C07": dict(text="Every clause of the Ready contract on real RawNode cycles: entries = unstable suffix handed once, hs present iff changed, must_sync rule, committed entries = exactly the committed, persisted, not-yet-handed range (contiguous, in order, none unpersisted), LightReady continues without gap/duplicate, has_ready() agrees with ready(), snapshot Ready, async persistence with an overwriting append in between.",
-            ref="3/C07", note="max_committed_size_per_ready pagination and max_apply_unpersisted_log_limit > 0 are outside the checked scenarios. " + SCEN + TRUST),
- "C08": dict(text="Leader read-index scenarios (3 / 5 voters, joint, learner, forwarded, duplicate ack, wrong context, singleton, not yet committed in term, loss of leadership) and the follower side: a read state appears only after a joint quorum of distinct voters acknowledged the request's context, carries the commit index recorded at request time, and goes only to the requester; pending reads die with the term. " + DEC,
+ "C07": dict(text="Every clause of the Ready contract on real RawNode cycles: entries = unstable suffix handed once, hs present iff changed, must_sync rule, committed entries = exactly the committed, persisted, not-yet-handed range (contiguous, in order, none unpersisted), LightReady continues without gap/duplicate, has_ready() agrees with ready(), snapshot Ready, async persistence (plain, snapshot, with an overwriting append in between - also exactly at the noticed index), one-entry-per-hand-off pagination (max_committed_size_per_ready = 0) drained over several rounds, apply-before-persist with limit 1.",
+            ref="3/C07", note="Pagination only with page sizes NO_LIMIT and 0 (general byte limits are decided at RaftLog::slice level in C14); max_apply_unpersisted_log_limit only 0 and 1. " + SCEN + TRUST),
+ "C08": dict(text="Leader read-index scenarios (3 / 5 voters, joint, learner, forwarded, duplicate ack, wrong context, singleton, not yet committed in term, loss of leadership) and the follower side: a read state appears only after a joint quorum of distinct voters acknowledged the request's context, carries the commit index recorded at request time, and goes only to the requester; pending reads die with the term; an acknowledgement releases only the reads queued up to its context; no single-voter fast path while an outgoing half exists. " + DEC,
             ref="3/C08", note=SCEN + TRUST),
- "C09": dict(text="Proposal filtering (pending change, second change in a batch, enter while joint, leave while not joint, batch [normal, change]), campaign gating on unapplied membership entries (hup / timeout / MsgTimeoutNow), promotable = voter of own config after apply_conf_change and snapshot install, non-voters never campaign; configuration after apply equals reference semantics (C12). " + DEC,
+ "C09": dict(text="Proposal filtering (pending change, second change in a batch, enter while joint, leave while not joint, batch [normal, change]), campaign gating on unapplied membership entries (hup / timeout / MsgTimeoutNow; one or several unapplied entries; scan in one page or one entry per page), promotable = voter of own config after apply_conf_change and snapshot install, non-voters never campaign; configuration after apply equals reference semantics (C12). " + DEC,
             ref="3/C09", note=SCEN + TRUST),
  "C10": dict(text="Only the per-step 'cannot stay stuck' obligations are decided: heartbeat response resumes a paused probe / frees a full window / respects an outstanding snapshot, rejections strictly lower next_idx, snapshot status reports and unreachable reports move progress to the right state, ticks fire elections and heartbeats exactly on schedule, check-quorum verdict exact. The first sentence (bounded-time convergence of the whole cluster) is NOT decided.",
             ref="3/C10", note="Liveness over a fair suffix needs many ticks on several nodes - out of reach for bounded model checking of the real code (DESIGN.md 0.2). " + SCEN + TRUST),
- "C11": dict(text="Real JointConfig/MajorityConfig::committed_index and vote_result, ProgressTracker::{maximal_committed_index, tally_votes, quorum_recently_active} against counting oracles for halves of 0..=5 voters (0..=3 quick), symbolic distinct ids per half (overlap free), symbolic 64-bit acked indexes, ids missing from the indexer, symbolic groups for group commit.",
-            ref="3/C11", note="Halves of 6-9 voters (the heap path of committed_index) are outside the bound. " + TRUST),
+ "C11": dict(text="Real JointConfig/MajorityConfig::committed_index and vote_result, ProgressTracker::{maximal_committed_index, tally_votes, quorum_recently_active} against counting oracles for halves of 0..=5 voters (0..=3 quick), symbolic distinct ids per half (overlap free), symbolic 64-bit acked indexes, ids missing from the indexer, symbolic groups for group commit (each half against the oracle, joint = minimum, also through the tracker wrapper in simple and joint configurations).",
+            ref="3/C11", note="Halves of 6-9 voters: only 8+0 (quick, concrete ids, 12-bit indexes) and 9+2 / 8 symbolic-id (thorough) in the capacity-9 build cover the heap path of committed_index. " + TRUST),
  "C12": dict(text="Real Changer::{simple, enter_joint, leave_joint} + apply_conf over listed configurations and every change type with ids 0..=5 (incl. 0 and untracked): result equals reference semantics, invariants hold, <=1 voter changes in simple, rejects leave everything untouched, quorum overlap old/new with two symbolic quorums through the real vote_result; ConfState round trip; Raft::apply_conf_change dispatch.",
             ref="3/C12", note="Change lists of length <= 3 over listed id tuples (ids decide vector lengths, hence concrete). " + TRUST),
  "C13": dict(text="Every message a leader emits in the leader scenarios is a contiguous slice of its log anchored at a log position, commits advertised <= commit (heartbeats also <= matched), inflight count <= max_inflight, at most one entry-carrying append while probing then paused, nothing while a snapshot is outstanding; uncommitted-size admission at the exact boundary; size-limited reads are maximal prefixes (C14).",
@@ -49,7 +49,7 @@ CLAIMS = {
             ref="3/C15", note=SCEN + TRUST),
  "C16": dict(text="Sentence 1 decided for every role with symbolic requests: a pre-vote request never changes term or vote. In-lease nodes ignore non-transfer campaigns (symbolic timers incl. the lease edge); a pre-candidate raises its term only by winning or when told of a higher one; stray pre-vote grants never disturb followers or leaders; check-quorum verdict exact. The lock-step sentence is decomposed. " + DEC,
             ref="3/C16", note=SCEN + TRUST),
- "C17": dict(text="Leader scenarios: MsgTimeoutNow only to the transferee once it matched the whole log (request time or later ack), learner/unknown targets ignored, self at most cancels, proposals refused during transfer, transfer abandoned after an election timeout or when the target leaves the voters; target side goes straight to a real election with the transfer context. " + DEC,
+ "C17": dict(text="Leader scenarios: MsgTimeoutNow only to the transferee once it matched the whole log (request time or later ack), learner/unknown targets ignored, self at most cancels, proposals refused during transfer, transfer abandoned after an election timeout (with and without check_quorum) or when the target leaves the voters; target side goes straight to a real election with the transfer context. " + DEC,
             ref="3/C17", note=SCEN + TRUST),
  "C18": dict(
    text="Bounded model checking of the real Inflights code: induction base (new(c)) + one operation of every kind "
@@ -58,7 +58,7 @@ CLAIMS = {
         "with fully symbolic 64-bit contents and arguments, compared against a FIFO reference model (count, full, contents in "
         "order, effective capacity, shrink applied at drain) and checked for invariant preservation, so histories of any "
         "length over those capacities are covered; plus public-API-only scripted sequences with drain comparison.",
-   ref="3/C18", note="Capacities and set_cap arguments above 4-6 are outside the bound. " + TRUST),
+   ref="3/C18", note="Capacities and set_cap arguments above 4-6 are outside the bound; over-allocated buffers (after a growing set_cap) with slack 2-3. " + TRUST),
  "C19": dict(text="Real MemStorage driven by scripted mutation sequences (append incl. overwriting, compact, apply_snapshot, hard state, commit_to, set_conf_state; symbolic terms / hard state / configuration ids) compared with a model on first/last index, term over a window of indexes incl. compacted and unavailable ones, range reads with and without size limit, snapshot(request). Found and fixed a genuine defect (empty range on an empty store).",
             ref="3/C19", note="Op kinds and index offsets are concrete per script (<= 4 mutations); std RwLock/Arc replaced by single-threaded stand-ins under the cfg guard. " + TRUST),
  "C20": dict(text="Kani's built-in panic / unwrap / index / overflow / unreachable checks over every explored path of the RawNode cycles and representative Raft steps, plus RawNode::step rejecting local types and non-member responses with state untouched, campaign right after a snapshot step, a leader that removed itself. Two genuine defects found: one fixed (leader self-removal), one recorded as known finding (single voter re-campaigning with an unpersisted tail).",
